@@ -27,6 +27,15 @@ PROPS = {
                 "non-trivial = a criterion sample lies within one record length of a block boundary",
         "assumptions": ["criteria as defined by the code (DESIGN 7.1), dead time inclusive", "completeness only demanded where decidable from delivered data (DESIGN 7.2)"],
     },
+    "C06": {
+        "pkg": ".", "hdir": "dastard", "harness": DASTARD_COMMON + ["zz_verif_files_test.go", "zz_verif_c06_test.go"], "test": "TestVerifC06",
+        "quick": T(16, 90), "thorough": T(16, 600),
+        "rule": "BFS: every (canonical writing state, request) pair executed once through the real AnySource.WriteControl with a tagged record per channel "
+                "pushed through the real AnalyzeData/PublishData after each request and all files decoded after a final STOP; DFS: all request "
+                "sequences to the depth bound; non-trivial = at least one START succeeded",
+        "assumptions": ["requests issued directly on the source (the RPC layer's queueing is C11)", "two channels, one with projectors",
+                        "file types compared only while the state is active (STOP leaves the type flags as they were)"],
+    },
     "C08": {
         "pkg": ".", "hdir": "dastard", "harness": DASTARD_COMMON + ["zz_verif_trig_test.go", "zz_verif_c08_test.go"], "test": "TestVerifC08",
         "quick": T(16, 90), "thorough": T(16, 900),
